@@ -12,6 +12,7 @@ RULE = ('case = (MAX_CACHE_SIZE, USE_FLOW_CONTROL, strategy, store/drain history
         'store at the limit; distinct = distinct interleavings per history')
 RULE_MORE = (' Further configurations: datapoints entering through the real pipeline with tagged series in any spelling, RELAY_CACHE_METRICS re-injection during a drain, the real writer loop with backend faults, timesorted with a lag; the bound is also checked on the datapoints actually held.')
 RULE_MORE = RULE_MORE + " Round 11: instrumentation ticks at the cache's limit (every statistic recorded for the cache reaches store() or raises the overflow signal)."
+RULE_MORE = RULE_MORE + " Round 12: tiny histories around one tick with switches concentrated inside the drain's critical section."
 RULE = RULE + RULE_MORE
 EXHAUSTIVE = {'quick': False, 'thorough': False}
 EXHAUSTIVE_OVER = 'all schedules with <=1 preemption of every generated history'
